@@ -257,6 +257,32 @@ def build(tier="quick", seed=0):
                                 functions=FU, mode="representative value (zone database / boundary)"))
     pack.case_analyses += [f"fixed offsets {sorted(TZS)} with symbolic calendar components", f"representative zone-database and boundary timestamps {sorted(CONCRETE)}", "input forms: components, timestamp object, ISO text (str and bytes), epoch number"]
 
+    # ------------------------------------------------------------------ C2. histories: one process writes the SAME instant under different offsets / zones / folds, in every order
+    SAME_INSTANT = [_dt.datetime(2021, 7, 1, 12, 30, 15, 5, tzinfo=UTC), _dt.datetime(2021, 7, 1, 14, 30, 15, 5, tzinfo=_dt.timezone(_dt.timedelta(hours=2))), _dt.datetime(2021, 7, 1, 14, 30, 15, 5, tzinfo=AMS),
+                    _dt.datetime(2021, 7, 1, 3, 0, 15, 5, tzinfo=_dt.timezone(_dt.timedelta(hours=-9, minutes=-30)))]
+    FOLDS = [_dt.datetime(2021, 10, 31, 2, 30, tzinfo=AMS, fold=0), _dt.datetime(2021, 10, 31, 2, 30, tzinfo=AMS, fold=1), _dt.datetime(2021, 10, 31, 0, 30, tzinfo=UTC), _dt.datetime(2021, 10, 31, 1, 30, tzinfo=UTC)]
+    for fmt, via in list(FORMATS.items()) + [("avro", via_avro)]:
+        for label, seq in (("same instant, four offsets", SAME_INSTANT), ("reversed", SAME_INSTANT[::-1]), ("fold=0 / fold=1 / their UTC instants", FOLDS), ("folds reversed", FOLDS[::-1])):
+            name = f"C13.{fmt}.history[{label}]"
+
+            def th(via=via, seq=seq, fmt=fmt):
+                bad = []
+                for d in seq + seq[:2]:
+                    t = it.call(DT, [d], {})
+                    back, stored = via(t)
+                    tb = it.unbase(t)
+                    for b in back:
+                        bb = it.unbase(b)
+                        if fmt == "avro":
+                            ok = bb.utcoffset() == _dt.timedelta(0) and bb.replace(tzinfo=None) == tb.replace(tzinfo=None) - tb.utcoffset()
+                        else:
+                            ok = bb.utcoffset() == tb.utcoffset() and bb.replace(tzinfo=None) == tb.replace(tzinfo=None)
+                        if not ok:
+                            bad.append(f"wrote {tb.isoformat()} (fold {tb.fold}) read {bb.isoformat()}")
+                return bad
+
+            pack.add(Obligation(name, lambda tier, name=name, th=th: prove_paths(name, th, lambda p: (not p.value, f"within one process: {p.value[:2]}")), replay=lambda w, fmt=fmt: {"call": "c13_history", "args": {"fmt": fmt}}, functions=FU, mode="concrete write histories in one process (equal instants must not share anything)"))
+
     # ------------------------------------------------------------------ D. display setting
     def th_display_sites():
         sites = []
